@@ -27,6 +27,7 @@ func vRunCase7(t *testing.T, c vCase) (msg string) {
 		idEnc := NewElement().Encode()
 		_ = NewElement().EncodeUncompressed()
 		sharedID := vElementOf(vInf(), big.NewInt(5))
+		var sharedZero Element
 		type res struct{ a, b, c, d, e []byte }
 		const workers = 4
 		out := make([]res, workers)
@@ -41,6 +42,11 @@ func vRunCase7(t *testing.T, c vCase) (msg string) {
 					r.a = append(r.a, EncodeToGroup(m, dst).Encode()...)
 					r.a = append(r.a, HashToScalar(m, dst).Encode()...)
 				}
+				// a zero-value Element is not a group element, but it is a legal shared argument: nobody may write to it
+				probe := NewElement().Base()
+				probe.Add(&sharedZero)
+				_ = probe.Equal(&sharedZero)
+				NewElement().Set(&sharedZero)
 				e := NewElement()
 				_ = e.Decode(enc)
 				e.Add(sharedEl).Subtract(sharedEl).Multiply(sharedSc).Double().Negate()
@@ -99,12 +105,17 @@ func vRunCase7(t *testing.T, c vCase) (msg string) {
 			k         *big.Int
 			kb        []byte
 			prod      vPt
+			msg, dst  []byte
+			h2g, e2g  []byte
+			h2s       []byte
 		}
 		jobs := make([]job, w2)
 		for i := range jobs {
 			k := big.NewInt(int64(1000003*i + 17))
 			pt := vMulPt(big.NewInt(int64(i+2)), vG())
-			jobs[i] = job{vSec1(pt, true), vSec1(pt, false), pt, k, vPad32(k), vMulPt(k, pt)}
+			msg, dst := []byte("race-message-"+itoa(i)), []byte("race-dst-"+itoa(i%3))
+			jobs[i] = job{vSec1(pt, true), vSec1(pt, false), pt, k, vPad32(k), vMulPt(k, pt), msg, dst,
+				vSec1(vHashToCurve(msg, dst, true), true), vSec1(vHashToCurve(msg, dst, false), true), vPad32(new(big.Int).Mod(new(big.Int).SetBytes(vExpandXMD(msg, dst, 48)), vN))}
 		}
 		errs := make([]string, w2)
 		var wg2 sync.WaitGroup
@@ -131,6 +142,12 @@ func vRunCase7(t *testing.T, c vCase) (msg string) {
 					if err := s.Decode(j.kb); err != nil || vScalarVal(s).Cmp(j.k) != 0 {
 						errs[i] = "concurrent Scalar.Decode returned a wrong value"
 						return
+					}
+					if it%5 == 0 {
+						if !bytes.Equal(HashToGroup(j.msg, j.dst).Encode(), j.h2g) || !bytes.Equal(EncodeToGroup(j.msg, j.dst).Encode(), j.e2g) || !bytes.Equal(HashToScalar(j.msg, j.dst).Encode(), j.h2s) {
+							errs[i] = "a concurrent hashing call returned a value that is not the RFC 9380 result for its own (message, DST)"
+							return
+						}
 					}
 					if it%10 == 0 {
 						if got, ok := vPointOf(e.Multiply(s)); !ok || !vSame(got, j.prod) {
